@@ -167,6 +167,24 @@ func c10Run(symbolicTokens, second bool) {
 	for i := range after.Validators {
 		sym.Assert(after.Validators[i].Address.Equals(stored1.Validators[i].Address) && after.Validators[i].ShareCount.Equal(stored1.Validators[i].ShareCount), "stored-snapshot-members-unchanged")
 	}
+	// the same snapshot goes live on the other chain as well: the list only grows
+	if err := env.K.SetSnapshotOnChain(env.Ctx, 1, c10Chains[1]); err != nil {
+		panic(err)
+	}
+	after2, err := env.K.FindSnapshotByID(env.Ctx, 1)
+	sym.Assert(err == nil, "old-snapshot-still-stored")
+	has := func(c string) bool {
+		for _, x := range after2.Chains {
+			if x == c {
+				return true
+			}
+		}
+		return false
+	}
+	sym.Assert(has(c10Chains[0]) && has(c10Chains[1]) && len(after2.Chains) == 2, "chains-are-only-ever-added-to-a-stored-snapshot")
+	sym.Assert(after2.TotalShares.Equal(stored1.TotalShares) && len(after2.Validators) == len(stored1.Validators), "stored-snapshot-body-unchanged")
+	live, err := env.K.GetLatestSnapshotOnChain(env.Ctx, c10Chains[0])
+	sym.Assert(err == nil && live != nil && live.Id == 1, "snapshot-stays-live-on-the-earlier-chain")
 }
 
 var VerifEntries = map[string]func(){
